@@ -41,7 +41,7 @@ theorem ctCompare_spec (a b : Bytes) (h : a.size = b.size) :
     rfl
 
 /-- `Equal` decides equality of residues -/
-theorem equal_spec {a b : Prims.Fe} (ha : U64 a) (hb : U64 b) :
+theorem fe_equal_spec {a b : Prims.Fe} (ha : U64 a) (hb : U64 b) :
     Fe.equal a b = if val a ≡ val b [MOD P] then 1 else 0 := by
   obtain ⟨sa, ga⟩ := bytes_spec' ha
   obtain ⟨sb, gb⟩ := bytes_spec' hb
@@ -52,23 +52,23 @@ theorem equal_spec {a b : Prims.Fe} (ha : U64 a) (hb : U64 b) :
   · rw [if_neg h, if_neg]
     intro hall
     apply h
-    have e1 := LE_bytes ha
-    have e2 := LE_bytes hb
-    rw [LE, sa] at e1
-    rw [LE, sb] at e2
+    have e1 := LEsum_bytes ha
+    have e2 := LEsum_bytes hb
+    rw [LEsum, sa] at e1
+    rw [LEsum, sb] at e2
     unfold Nat.ModEq
     rw [← e1, ← e2]
     exact (LEpre_congr _ _ 32 hall).symm
 
-theorem equal_one_iff {a b : Prims.Fe} (ha : U64 a) (hb : U64 b) :
+theorem fe_equal_one_iff {a b : Prims.Fe} (ha : U64 a) (hb : U64 b) :
     Fe.equal a b = 1 ↔ val a ≡ val b [MOD P] := by
-  rw [equal_spec ha hb]
+  rw [fe_equal_spec ha hb]
   by_cases h : val a ≡ val b [MOD P]
   · simp [h]
   · simp [h]
 
-theorem equal_01 {a b : Prims.Fe} (ha : U64 a) (hb : U64 b) : Fe.equal a b = 0 ∨ Fe.equal a b = 1 := by
-  rw [equal_spec ha hb]
+theorem fe_equal_01 {a b : Prims.Fe} (ha : U64 a) (hb : U64 b) : Fe.equal a b = 0 ∨ Fe.equal a b = 1 := by
+  rw [fe_equal_spec ha hb]
   by_cases h : val a ≡ val b [MOD P]
   · simp [h]
   · simp [h]
@@ -77,13 +77,13 @@ theorem isNegative_01 {a : Prims.Fe} (ha : U64 a) : Fe.isNegative a = 0 ∨ Fe.i
   rw [isNegative_spec ha]; omega
 
 /-- `Absolute`: the representative of `±u` whose canonical form is even -/
-theorem absolute_spec {u : Prims.Fe} (hu : Inv u) :
+theorem fe_absolute_spec {u : Prims.Fe} (hu : Inv u) :
     Inv (Fe.absolute u) ∧
     (val u % P % 2 = 0 → Fe.absolute u = u) ∧
     (val u % P % 2 = 1 → Fe.absolute u = Fe.neg u) := by
   have hn := neg_spec hu
   have un : U64 (Fe.neg u) := tight_u64 hn.1
-  have uu : U64 u := inv_u64 hu
+  have uu : U64 u := inv_U64 hu
   have hs := isNegative_spec uu
   unfold Fe.absolute
   rcases isNegative_01 uu with h | h
